@@ -15,7 +15,15 @@ program the REAL trainer handed to QpSolver (linear term, box, initial alpha; ob
       way the returned coefficient is formed, the one-class box and initial point);
   (b) the extracted, proved `certify` (exact rational arithmetic) is run on the trainer's returned variables with the
       kernel matrix computed independently (exact Gram matrix of the dyadic data for the linear kernel, Python's doubles
-      converted exactly for the Gaussian kernel) and must accept with eps + the printed rounding allowance."""
+      converted exactly for the Gaussian kernel) and must accept with eps + the printed rounding allowance.
+
+Extension "degenerate geometry" (op code D, gen_degenerate / monitor_deg; theorems C07_smo_step_* of Properties_C07.v): every
+trainer family on near-duplicate pairs (distance 1e-3..1e-7, same / opposite labels or targets), exact duplicates, collinear
+points, tiny and huge feature scales, x {float, double cache} x {precomputed, big cache, 2-row cache} x {shrinking on/off},
+kernels linear / polynomial / wide and narrow Gaussian.  Results reported as accurate are judged against the DOUBLE kernel
+matrix computed here: box exactly (also the solver's own variables), equality to 1e-12 relative, eps-KKT / bias interval /
+objective with the derived allowance for the rounding of the kernel entries (see deg_kernel, deg_allow), agreement across
+configurations, and the extracted certify."""
 import os, sys, re, math, struct, json
 sys.path.insert(0, os.path.dirname(os.path.abspath(__file__)))
 from vlib import *
@@ -88,6 +96,7 @@ def configs(p, rng):
     return out
 
 def case_line(p, c, cid):
+    if p.get("deg"): return deg_case_line(p, c, cid)
     t = ["T", cid, p["trainer"], str(p["bias"]), str(c["shrink"]), str(c["prec"]), str(c["cachesize"]), c["ctype"], p["kernel"],
          fhex(p["gamma"])] + ([fhex(v) for v in p["logC"]] if p["trainer"] == "csvmu" else [fhex(p["Cneg"]), fhex(p["Cpos"])]) + \
         [fhex(p["eps"]), fhex(p["param"]), str(p["n"]), str(p["d"]), str(c["warm"])]
@@ -178,6 +187,217 @@ def monitor(p, c, K, res):
 
 
 # ---------------------------------------------------------------------------------------------------------------------
+# degenerate-geometry stream (op code D): near-duplicates, duplicates, collinear points, extreme scales; float and double cache
+
+U53 = 2.0 ** -53          # unit roundoff of double (round to nearest)
+U24 = 2.0 ** -24          # unit roundoff of float: |float(x) - x| <= 2^-24 |x| for normal results, <= 2^-150 for subnormal ones
+DEG_FAMILIES = [("csvm", 1, "one"), ("csvm", 0, "one"), ("csvm", 1, "cls"), ("csvmw", 1, "one"), ("csvmw", 0, "cls"), ("epssvr", 1, "one"), ("oneclass", 1, "one")]
+DEG_GEOM = ["near", "near", "near", "dup", "line", "mixed"]
+DEG_DELTAS = [1e-3, 1e-4, 1e-5, 3e-6, 1e-6, 1e-7]
+
+def gen_degenerate(rng, k, big):
+    tr, bias, cmode = DEG_FAMILIES[k % len(DEG_FAMILIES)]
+    geom = DEG_GEOM[(k // len(DEG_FAMILIES)) % len(DEG_GEOM)]
+    d = rng.randint(1, 3)
+    kern = rng.choice(["lin", "lin", "poly", "rbfw", "rbfn"])
+    m = rng.randint(3, 14 if big else 10)                    # base points
+    generic = rng.random() < 0.6
+    def pt(): return [rng.uniform(-3, 3) if generic else float(rng.randint(-3, 3)) for _ in range(d)]
+    def unit():
+        while True:
+            v = [rng.uniform(-1, 1) for _ in range(d)]; nv = math.sqrt(sum(a * a for a in v))
+            if nv > 0.1: return [a / nv for a in v]
+    if geom == "line" or (geom == "mixed" and rng.random() < 0.5):
+        a0 = pt() if rng.random() < 0.6 else [0.0] * d; v0 = unit()
+        base = [[a + rng.randint(-6, 6) / 2.0 * b for a, b in zip(a0, v0)] for _ in range(m)]
+    else:
+        base = [pt() for _ in range(m)]
+    x = []; twin = []                                         # twin[i] = (index of the partner, distance) or None
+    for b in base:
+        kind = {"near": "n", "dup": "e", "line": rng.choice("nes"), "mixed": rng.choice("nnes")}[geom]
+        if geom in ("near", "dup") and rng.random() < 0.15: kind = "s"
+        x.append(list(b)); i = len(x) - 1
+        if kind == "s": twin.append(None); continue
+        delta = rng.choice(DEG_DELTAS) if kind == "n" else 0.0
+        u = unit(); x.append([a + delta * c for a, c in zip(b, u)])
+        twin.append((i + 1, delta)); twin.append((i, delta))
+    scale = rng.choice([1.0, 1.0, 1.0, 2.0 ** -6, 2.0 ** 6, 1e-4, 1e4])
+    x = [[a * scale for a in q] for q in x]
+    n = len(x)
+    p = {"deg": True, "pid": "g%d" % k, "trainer": tr, "n": n, "d": d, "bias": bias, "geom": geom, "scale": scale, "w": None, "param": 0.0,
+         "maxit": 200000}
+    if kern == "lin": p["kernel"] = "lin"; p["gamma"] = 0.0; p["kp2"] = 0.0
+    elif kern == "poly": p["kernel"] = "poly"; p["gamma"] = float(rng.choice([2, 3])); p["kp2"] = rng.choice([0.0, 1.0])
+    else:
+        g0 = rng.choice([2.0 ** -8, 2.0 ** -5] if kern == "rbfw" else [1.0, 8.0])
+        p["kernel"] = "rbf"; p["gamma"] = g0 / (scale * scale if rng.random() < 0.6 else 1.0); p["kp2"] = 0.0
+    C = rng.choice([0.125, 1.0, 1.0, 10.0, 100.0, 1000.0])
+    p["Cneg"] = C; p["Cpos"] = C * (rng.choice([0.5, 4.0]) if cmode == "cls" else 1.0)
+    p["eps"] = rng.choice([1e-2, 1e-3, 1e-3, 1e-5])
+    if tr in CS:
+        y = [0] * n
+        for i in range(n):
+            if twin[i] is None or twin[i][0] > i: y[i] = rng.randint(0, 1)
+            else: y[i] = y[twin[i][0]] ^ (1 if rng.random() < 0.5 else 0)          # opposite labels on half of the pairs
+        if len(set(y)) == 1: y[rng.randrange(n)] ^= 1
+        p["y"] = [float(v) for v in y]
+        if tr == "csvmw": p["w"] = [rng.choice([0.25, 0.5, 1.0, 2.0]) for _ in range(n)]
+    elif tr == "epssvr":
+        y = [0.0] * n
+        for i in range(n):
+            if twin[i] is None or twin[i][0] > i: y[i] = rng.randint(-8, 8) / 4.0
+            else: y[i] = y[twin[i][0]] + rng.choice([0.0, 0.0, 1e-3, 0.5, -2.0])     # same / slightly different / contradicting targets
+        p["y"] = y; p["param"] = rng.choice([0.0625, 0.25])
+    else:
+        p["y"] = [0.0] * n; p["param"] = rng.choice([0.25, 0.5, 0.75])
+    if rng.random() < 0.5:                                    # pairs need not be neighbours in the data set
+        perm = list(range(n)); rng.shuffle(perm)
+        p["x"] = [x[i] for i in perm]; p["y"] = [p["y"][i] for i in perm]
+        if p["w"]: p["w"] = [p["w"][i] for i in perm]
+    else: p["x"] = x
+    p["min_pair_distance"] = min([tw[1] * scale for tw in twin if tw is not None] + [float("inf")])
+    return p
+
+def deg_configs(p):
+    nv = p["n"] * (2 if p["trainer"] == "epssvr" else 1)
+    return [{"shrink": sh, "prec": prec, "cachesize": cs, "warm": 0, "ctype": ct}
+            for sh in (0, 1) for (prec, cs) in ((1, 100000), (0, 0x4000000), (0, 2 * nv)) for ct in ("f", "d")]
+
+def deg_case_line(p, c, cid):
+    t = ["D", cid, p["trainer"], str(p["bias"]), str(c["shrink"]), str(c["prec"]), str(c["cachesize"]), c["ctype"], p["kernel"],
+         fhex(p["gamma"]), fhex(p["kp2"]), fhex(p["Cneg"]), fhex(p["Cpos"]), fhex(p["eps"]), fhex(p["param"]), str(p["n"]), str(p["d"]), str(p["maxit"])]
+    t += [fhex(v) for v in p["y"]] + [fhex(v) for q in p["x"] for v in q]
+    if p["trainer"] == "csvmw": t += [fhex(v) for v in p["w"]]
+    return " ".join(t)
+
+def parse_deg_line(l):
+    t = l.split(); pf = float.fromhex
+    p = {"deg": True, "pid": t[1], "trainer": t[2], "bias": int(t[3]), "kernel": t[8], "gamma": pf(t[9]), "kp2": pf(t[10]), "Cneg": pf(t[11]), "Cpos": pf(t[12]),
+         "eps": pf(t[13]), "param": pf(t[14]), "n": int(t[15]), "d": int(t[16]), "maxit": int(t[17]), "w": None}
+    c = {"shrink": int(t[4]), "prec": int(t[5]), "cachesize": int(t[6]), "ctype": t[7], "warm": 0}
+    n, d = p["n"], p["d"]; q = 18
+    p["y"] = [pf(v) for v in t[q:q + n]]; q += n
+    p["x"] = [[pf(t[q + i * d + k]) for k in range(d)] for i in range(n)]; q += n * d
+    if p["trainer"] == "csvmw": p["w"] = [pf(v) for v in t[q:q + n]]
+    return p, c
+
+def deg_kernel(p):
+    """(K, E): K the double kernel matrix computed here, independently of the library; E an entrywise bound of
+       |value the library computes in double - exact value| + |K_ij - exact value| (standard model of floating point, u = 2^-53):
+         linear      inner_prod = d rounded products, d-1 rounded additions: <= d u S, S = sum_k |x_ik x_jk|; here: rounded products, exact sum, one rounding
+         polynomial  base b = inner product + offset (one more rounding), pow within 1 ulp: deg |b|^(deg-1) db + 2u|K|
+         Gaussian    r2 = sum (a-b)^2: relative (d+2)u, times gamma: (d+3)u, exp within 1 ulp: K (gamma r2 (d+3)u + 2u)
+       Third result EP: the same bound for the PRECOMPUTED matrix.  PrecomputedMatrix fills itself through the batch evaluation of the
+       kernel; for the Gaussian kernel and >= 10 points that is distanceSqrBlockBlock (LinAlg/Metrics.h), which expands
+       r2 = |x|^2 + |y|^2 - 2<x,y> (matrix product): absolute error of r2 <= (d+4) u (|x|^2 + |y|^2 + 2 sum_k |x_k y_k|), no longer relative
+       to r2 (it may even come out negative for nearly identical points far from the origin), so
+       |K~_ij - K_ij| <= K_ij (exp(gamma dr2) - 1) + 2u K~_ij.  Linear / polynomial batch evaluation: a matrix product, same bound as inner_prod."""
+    n = p["n"]; x = p["x"]; d = p["d"]
+    K = [[0.0] * n for _ in range(n)]; E = [[0.0] * n for _ in range(n)]; EP = [[0.0] * n for _ in range(n)]
+    for i in range(n):
+        for j in range(n):
+            if p["kernel"] in ("lin", "poly"):
+                ip = math.fsum(a * b for a, b in zip(x[i], x[j])); S = math.fsum(abs(a * b) for a, b in zip(x[i], x[j]))
+                if p["kernel"] == "lin":
+                    K[i][j] = ip; E[i][j] = (2 * d + 2) * U53 * S + 1e-320
+                else:
+                    deg = int(p["gamma"]); b = ip + p["kp2"]; K[i][j] = b ** deg
+                    db = (d + 2) * U53 * (S + abs(p["kp2"]))
+                    E[i][j] = 2 * (deg * (abs(b) + db) ** (deg - 1) * db + 2 * U53 * abs(K[i][j])) + 1e-320
+            else:
+                r2 = math.fsum((a - b) ** 2 for a, b in zip(x[i], x[j])); e = p["gamma"] * r2
+                K[i][j] = math.exp(-e); E[i][j] = 2 * K[i][j] * (e * (d + 3) * U53 * 1.001 + 2 * U53) + 1e-320
+                S = math.fsum(abs(a * b) for a, b in zip(x[i], x[j])); nx = math.fsum(a * a for a in x[i]); ny = math.fsum(b * b for b in x[j])
+                dr2 = (d + 4) * U53 * (nx + ny + 2 * S) * 1.001
+                EP[i][j] = E[i][j] + K[i][j] * math.expm1(p["gamma"] * dr2) * (1 + 4 * U53) + 2 * U53 * K[i][j] * math.exp(p["gamma"] * dr2)
+            if p["kernel"] != "rbf": EP[i][j] = E[i][j]
+    return K, E, EP
+
+def deg_allow(p, c, K, E, it, absv):
+    """per-point allowance for the difference between the solver's own gradient and lin - K alpha with the DOUBLE matrix K computed here.
+       absv[j] = |alpha_j| (eps-SVR: |alpha+_j| + |alpha-_j|, the solver's own variables).
+         gerr_i = sum_j T_ij absv_j,  T_ij = E_ij                                         double cache / precomputed double matrix (E: see deg_kernel)
+                                      T_ij = E_ij + 2^-24 (|K_ij| + E_ij) + 2^-150        float cache / precomputed float matrix: every entry the
+                                             solver reads is the library's double value rounded to float (KernelMatrix::entry, the diagonal too)
+         drift  = 256 u' scale sqrt(iterations+1), u' = 2^-52, scale = max_i sum_j |K_ij| absv_j: rounding of the incrementally updated
+                  double gradient (the allowance the other streams of this check use, unchanged)
+       The solver accepts when ITS violation is < eps, so against K:  max_up (g_a - gerr_a) - min_down (g_b + gerr_b) <= eps + 2 drift."""
+    n = p["n"]; isf = c["ctype"] == "f"
+    gerr = [0.0] * n; fpart = 0.0
+    if isinstance(E, tuple): E = E[1] if c["prec"] else E[0]          # (single evaluations, batch evaluation of the precomputed matrix)
+    for i in range(n):
+        e = 0.0; f = 0.0
+        for j in range(n):
+            e += E[i][j] * absv[j]
+            if isf: f += (U24 * (abs(K[i][j]) + E[i][j]) + 2.0 ** -150) * absv[j]
+        gerr[i] = (e + f) * (1 + 1e-12); fpart = max(fpart, f)
+    scale = max(1.0, max(sum(abs(K[i][j]) * absv[j] for j in range(n)) for i in range(n)))
+    drift = 256 * EPSM * scale * math.sqrt(it + 1)
+    return gerr, drift, scale, fpart
+
+def deg_eq_tol(asum, amax, it):
+    """equality constraint: NO allowance for the kernel; only the rounding of the two coefficients moved per SMO step
+       (<= 2^-52 * max|alpha| each, linear in the number of steps), capped at 1e-12 relative"""
+    return min(64 * EPSM * (asum + 1) + 4 * EPSM * (it + 4) * amax, 1e-12 * max(1.0, asum, amax))
+
+def monitor_deg(p, c, K, E, res, solver):
+    """the monitors of `monitor`, judged against the double matrix K with the derived allowances; box exact.
+       solver = (variables, lo, hi) of the solver's own problem (F and Q lines of the harness) or None.
+       returns (list of (key, msg), recomputed objective, total KKT allowance, float part of it)"""
+    typ, it, value, acc, nb, bias, coef = res
+    n = p["n"]; bad = []
+    if len(coef) != n: return [("shape", "number of coefficients %d != %d" % (len(coef), n))], None, 0.0, 0.0
+    V, eq = dual_view(p, coef)
+    absv = [abs(v) for v in coef]
+    if solver is not None:
+        sv, slo, shi = solver
+        if p["trainer"] == "epssvr" and len(sv) == 2 * n: absv = [abs(sv[i]) + abs(sv[i + n]) for i in range(n)]
+        for k in range(len(sv)):
+            if not (slo[k] <= sv[k] <= shi[k]):
+                bad.append(("box", "solver variable %d = %r outside its box [%r,%r] (no rounding allowance applies to the box)" % (k, sv[k], slo[k], shi[k]))); break
+    gerr, drift, scale, fpart = deg_allow(p, c, K, E, it, absv)
+    f = [math.fsum(K[i][j] * coef[j] for j in range(n)) for i in range(n)]
+    eps = p["eps"]
+    g = [lin - f[i] for (v, lo, hi, lin, i) in V]
+    tk = [gerr[i] + drift for (v, lo, hi, lin, i) in V]
+    if not bad:
+        for (v, lo, hi, lin, i) in V:
+            if not (lo <= v <= hi): bad.append(("box", "coefficient %r of point %d outside [%r,%r] (no rounding allowance applies to the box)" % (v, i, lo, hi))); break
+    asum = sum(abs(v) for v in coef)
+    amax = max([abs(v) for v in coef] + [abs(lo) for (v, lo, hi, lin, i) in V] + [abs(hi) for (v, lo, hi, lin, i) in V if hi < 1e300] + [1.0])
+    eqtol = deg_eq_tol(asum, amax, it)
+    if eq:
+        s = math.fsum(coef); want = 1.0 if p["trainer"] == "oneclass" else 0.0
+        if not abs(s - want) <= eqtol:
+            bad.append(("equality", "sum of coefficients %r, equality constraint demands %r (tolerance %.3g = rounding of the coefficients only)" % (s, want, eqtol)))
+    upk = [k for k, (v, lo, hi, lin, i) in enumerate(V) if v < hi]
+    dnk = [k for k, (v, lo, hi, lin, i) in enumerate(V) if v > lo]
+    kall = 0.0
+    if eq:
+        if upk and dnk:
+            a = max(upk, key=lambda k: g[k] - tk[k]); b = min(dnk, key=lambda k: g[k] + tk[k])
+            viol = (g[a] - tk[a]) - (g[b] + tk[b]); raw = g[a] - g[b]; kall = tk[a] + tk[b]
+        else: viol = raw = -1e100
+    else:
+        cand = [(g[k] - tk[k], g[k], tk[k]) for k in upk] + [(-g[k] - tk[k], -g[k], tk[k]) for k in dnk]
+        viol, raw, kall = max(cand + [(0.0, 0.0, 0.0)])
+    kmax = 2 * max(tk) if eq else max(tk)
+    if typ == 1 and not viol <= eps:
+        bad.append(("kkt", "accuracy reported as reached but KKT violation %r > eps %r against the independent double kernel matrix "
+                           "(allowance at the violating pair %.3g: float rounding of the cached entries %.3g, double evaluation + gradient drift %.3g)"
+                    % (raw, eps, kall, 2 * fpart if eq else fpart, kall - (2 * fpart if eq else fpart))))
+    if eq and typ == 1 and nb == 1 and upk and dnk and not bad:
+        lo_b = max(g[k] - tk[k] for k in upk) - eps; hi_b = min(g[k] + tk[k] for k in dnk) + eps
+        if not (lo_b <= bias <= hi_b): bad.append(("bias", "bias %r outside the interval [%r,%r] allowed by the optimality conditions" % (bias, lo_b, hi_b)))
+    if not eq and p["trainer"] in CS and nb != 0 and bias != 0.0:
+        bad.append(("bias", "bias-free training returned offset %r" % bias))
+    obj = math.fsum(lin * v for (v, lo, hi, lin, i) in V) - 0.5 * math.fsum(coef[i] * f[i] for i in range(n))
+    otol = 0.5 * sum(abs(v) * tk[k] for k, (v, lo, hi, lin, i) in enumerate(V)) + 64 * EPSM * math.sqrt(it + 1) * max(1.0, scale * asum)
+    if typ == 1 and not abs(value - obj) <= otol: bad.append(("objective", "reported dual objective %r, recomputed %r (tol %.3g)" % (value, obj, otol)))
+    return bad, obj, kmax, (2 * fpart if eq else fpart)
+
+
+# ---------------------------------------------------------------------------------------------------------------------
 # extension: extracted assembly model + certified checker next to the real trainers
 
 def canon(h):
@@ -247,7 +467,8 @@ def main():
     ck.assumptions = ["kernel matrix symmetric positive semidefinite: PROVED for the linear kernel (exact Gram matrix, C07_linear_kernel_gram_is_sym_psd, and the eps-SVR block matrix); for the Gaussian kernel "
                       "the double-valued matrix is an input and its positive semidefiniteness is an assumption monitored by a pivoted LDL^T on every run",
                       "results are judged only when the trainer reports QpAccuracyReached; the iteration limit is 2e6",
-                      "data with integer/dyadic coordinates, C in 0.125..1000 (the extreme-scale family of finding F3 is C08's extreme stream)"]
+                      "main stream: data with integer/dyadic coordinates, C in 0.125..1000 (the extreme-scale family of finding F3 is C08's extreme stream); degenerate-geometry stream: generic doubles, feature scales 1e-4..1e4, "
+                      "iteration limit 2e5; the floating-point error bounds of the kernel evaluations (standard model, pow/exp within 1 ulp) behind its KKT allowance are derived in tools/c07.py deg_kernel / deg_allow, not proved"]
     ck.proofs()
     exe, err = cxx_build("c07_train", [os.path.join(ROOT, "harness", "c07_train.cpp")] + repo_src("src/Core/Random.cpp"))
     if exe is None:
@@ -260,6 +481,8 @@ def main():
         for l in open(ck.replay).read().split("\n"):
             if l.startswith("T "):
                 p, c = parse_case_line(l); items.append((p, c, l.split()[1]))
+            elif l.startswith("D "):
+                p, c = parse_deg_line(l); items.append((p, c, l.split()[1]))
     else:
         cdir = os.path.join(ROOT, "corpus", PID)
         if os.path.isdir(cdir):
@@ -270,6 +493,11 @@ def main():
         for k in range(1500 if big else 150):
             p = gen_problem(ck.rng, "p%d" % k, big)
             for ci, c in enumerate(configs(p, ck.rng)): items.append((p, c, "p%d_%d" % (k, ci)))
+        # degenerate-geometry stream: its own random stream, so the problem population above stays what it was
+        drng = random.Random(ck.seed * 7919 + 7)
+        for k in range(len(DEG_FAMILIES) * (100 if big else 14)):
+            p = gen_degenerate(drng, k, big)
+            for ci, c in enumerate(deg_configs(p)): items.append((p, c, "g%d_%d" % (k, ci)))
     cf = os.path.join(tmpd, "cases.txt" if ck.replay is None and os.path.realpath(REPO) == os.path.realpath("/repo") and ck.tier == "quick" else "cases_%d.txt" % os.getpid())
     open(cf, "w").write("\n".join(case_line(p, c, cid) for p, c, cid in items) + "\n")
     rc, out, err = sh([exe, cf], timeout=3000, env={"OMP_NUM_THREADS": "1", "OPENBLAS_NUM_THREADS": "1"})
@@ -288,6 +516,9 @@ def main():
             results[t[1]] = (int(t[2]), int(t[3]), float.fromhex(t[4]), float.fromhex(t[5]), int(t[6]), float.fromhex(t[7]), [float.fromhex(v) for v in t[9:9 + na]])
         elif t[0] in ("EXC", "STDEXC"): results[t[1]] = l
     nrep = 0; keys = {}; nacc = 0; groups = {}; Kc = {}; monfail = set(); nreuse = 0; objlim = []
+    Dk = {}; Dall = {}                     # degenerate stream: (K, E) by problem; total KKT allowance by run
+    dstat = {"runs": 0, "judged": 0, "judged_float": 0, "judged_nontrivial": 0, "max_float_allowance/eps": 0.0, "max_kkt_allowance/eps": 0.0,
+             "judged_by_family": {}, "judged_by_kernel": {}, "judged_by_geometry": {}}
     def rep(p, c, cid, key, msg):
         nonlocal nrep
         k2 = "%s:%s:bias%d:warm%d" % (key, p["trainer"], p["bias"], c["warm"]); keys[k2] = keys.get(k2, 0) + 1
@@ -304,9 +535,29 @@ def main():
             rep(p, c, cid, "crash", "implementation crashed/stopped before run %s (rc=%s) %s" % (cid, rc, err.strip()[-200:])); break
         if isinstance(r, str):
             rep(p, c, cid, "exception", "trainer threw: " + r); continue
-        if id(p) not in Kc:
-            Kd = kernel_matrix(p); Kc[id(p)] = (Kd, [[f32(v) for v in row] for row in Kd])
-        bad, obj = monitor(p, c, Kc[id(p)][1 if c["ctype"] == "f" else 0], r)
+        if p.get("deg"):
+            if id(p) not in Dk: Dk[id(p)] = deg_kernel(p)
+            solver = None
+            if (cid, 0) in hf and (cid, 0) in hq:
+                sv = [float.fromhex(v) for v in hf[(cid, 0)]]; q_ = hq[(cid, 0)]; dm = len(q_) // 4
+                if len(sv) == dm: solver = (sv, [float.fromhex(v) for v in q_[dm:2 * dm]], [float.fromhex(v) for v in q_[2 * dm:3 * dm]])
+            if r[0] != 1:
+                bad, obj, kall, fall = [], None, 0.0, 0.0           # premise of the property: only results reported as accurate are judged
+            else:
+                bad, obj, kall, fall = monitor_deg(p, c, Dk[id(p)][0], Dk[id(p)][1:], r, solver)
+                dstat["judged"] += 1; dstat["judged_float"] += c["ctype"] == "f"
+                dstat["max_float_allowance/eps"] = max(dstat["max_float_allowance/eps"], fall / p["eps"])
+                dstat["max_kkt_allowance/eps"] = max(dstat["max_kkt_allowance/eps"], kall / p["eps"])
+                if r[1] >= 2: dstat["judged_nontrivial"] += 1
+                fk = "%s%s" % (p["trainer"], "" if p["trainer"] not in CS else ":bias%d" % p["bias"])
+                dstat["judged_by_family"][fk] = dstat["judged_by_family"].get(fk, 0) + 1
+                dstat["judged_by_kernel"][p["kernel"]] = dstat["judged_by_kernel"].get(p["kernel"], 0) + 1
+                dstat["judged_by_geometry"][p.get("geom", "replay")] = dstat["judged_by_geometry"].get(p.get("geom", "replay"), 0) + 1
+            dstat["runs"] += 1; Dall[cid] = kall
+        else:
+            if id(p) not in Kc:
+                Kd = kernel_matrix(p); Kc[id(p)] = (Kd, [[f32(v) for v in row] for row in Kd])
+            bad, obj = monitor(p, c, Kc[id(p)][1 if c["ctype"] == "f" else 0], r)
         if c["warm"] == 4 and r[0] != 1 and bad and all(k == "objective" for k, _ in bad):
             # outside the premise of the property (the run stopped on the iteration limit, nothing is claimed): QpSolver::solve
             # reports functionValue() of a still SHRUNK problem (stale gradients of the shrunk variables) when it stops on the
@@ -339,6 +590,11 @@ def main():
         spread = max(objs) - min(objs)
         sc = max(1.0, max(abs(o) for o in objs))
         lim = (bound if bound is not None else 2 * p["eps"] * sum(hi - lo for (v, lo, hi, lin, i) in V)) + 1e-9 * sc
+        if p.get("deg"):
+            # every accepted result is a feasible (eps + A)-KKT point of the SAME double-matrix problem, A = its KKT allowance:
+            # each lies within (eps + A) * sum(U-L) below the optimum (C07_eps_KKT_near_optimal), so the spread is at most the largest such term
+            S_ = sum(hi - lo for (v, lo, hi, lin, i) in V if hi - lo < 1e300)
+            lim = (p["eps"] + max(Dall.get(z[2], 0.0) for z in lst)) * S_ + 1e-9 * sc + 2e-12 * max(1.0, S_) * max(abs(z[3][5]) for z in lst)
         nagree += len(lst)
         if not spread <= lim:
             a = max(lst, key=lambda z: z[4]); b = min(lst, key=lambda z: z[4])
@@ -360,10 +616,20 @@ def main():
         var = [float.fromhex(v) for v in hf[(cid, last)]]
         if p["trainer"] == "epssvr": dl.append("S %s %d %s" % (cid, n, " ".join(hf[(cid, last)])))
         if r[0] != 1: continue                                  # certify only what the trainer claims to be accurate
-        Kd, K32 = Kc[id(p)]; Kuse = K32 if c["ctype"] == "f" else Kd
         q = hq[(cid, last)]; dims = len(q) // 4
         lohi = [float.fromhex(v) for v in q[dims:3 * dims]]
-        tol, slack = allowances(p, c, Kuse, r[1], r[6], var, lohi)
+        if p.get("deg"):
+            # degenerate stream: certify judges against the DOUBLE matrix (linear kernel: the exact Gram matrix of the data) with
+            # eps + the largest pair allowance of deg_allow; equality slack = deg_eq_tol (no kernel allowance)
+            Kuse = Dk[id(p)][0]
+            absv = [abs(var[i]) + abs(var[i + n]) for i in range(n)] if p["trainer"] == "epssvr" else [abs(v) for v in var]
+            gerr, drift, _, _ = deg_allow(p, c, Kuse, Dk[id(p)][1:], r[1], absv)
+            tol = max(gerr) + drift
+            amax_ = max([abs(v) for v in r[6]] + [abs(x) for x in lohi if abs(x) < 1e300] + [1.0])
+            slack = deg_eq_tol(sum(abs(v) for v in r[6]), amax_, r[1])
+        else:
+            Kd, K32 = Kc[id(p)]; Kuse = K32 if c["ctype"] == "f" else Kd
+            tol, slack = allowances(p, c, Kuse, r[1], r[6], var, lohi)
         eq = 1 if (p["trainer"] not in CS or p["bias"]) else 0
         target = 1.0 if p["trainer"] == "oneclass" else 0.0
         eps_c = p["eps"] + 2 * tol
@@ -374,6 +640,7 @@ def main():
         dl.append("C %s %d %s %d %s %s %s %s %s %s" % (cid, eq, fhex(target), 1 if (eq and r[4] == 1) else 0, fhex(r[5]), fhex(eps_c), fhex(slack), fhex(0.0), km, " ".join(hf[(cid, last)])))
         want[cid] = (eps_c, slack, 2 * tol); want[id(p)] = True
         ak_ = "eps_allowance_2tol" if not (c["ctype"] == "f" and c["warm"]) else "eps_allowance_2tol_float_warm"
+        if p.get("deg"): ak_ = "eps_allowance_2tol_degenerate_float_cache" if c["ctype"] == "f" else "eps_allowance_2tol_degenerate_double_cache"
         allow_max[ak_] = max(allow_max.get(ak_, 0.0), 2 * tol / p["eps"])
         allow_max["slack_eq"] = max(allow_max["slack_eq"], slack)
         allow_max["bound_slack_term"] = max(allow_max["bound_slack_term"], abs(r[5]) * 2 * slack)
@@ -436,12 +703,17 @@ def main():
                 rep2(p, c, cid, "svr-coef", "returned coefficient %d is %r, the model forms %s from the two solver variables" % (j, r[6][j] if j < len(r[6]) else None, mc[j] if j < len(mc) else None))
             M = hm.get((cid, 0)); idx = mb.get("%s#0" % cid)
             if M is not None and idx is not None:
-                nblock += 1; dims = 2 * n; Mv = [float.fromhex(v) for v in M]; Kd = Kc[id(p)][0]
+                nblock += 1; dims = 2 * n; Mv = [float.fromhex(v) for v in M]
+                if p.get("deg"):
+                    Kd = Dk[id(p)][0]; Ed = Dk[id(p)][2 if c["prec"] else 1]; isf = c["ctype"] == "f"       # entry bound of deg_kernel / deg_allow instead of the flat 1e-12
+                    mtol = lambda i, j: (Ed[i][j] + ((U24 * (abs(Kd[i][j]) + Ed[i][j]) + 2.0 ** -150) if isf else 0.0)) * (1 + 1e-12)
+                else:
+                    Kd = Kc[id(p)][0]; mtol = lambda i, j: 1e-12 * max(1.0, abs(Kd[i][j]))
                 badm = None
                 for i in range(dims):
                     for j in range(dims):
                         if Mv[i * dims + j] != Mv[idx[i] * dims + idx[j]]: badm = "entry (%d,%d) of the 2n x 2n matrix is %r, entry (%d,%d) of its upper left block is %r" % (i, j, Mv[i * dims + j], idx[i], idx[j], Mv[idx[i] * dims + idx[j]])
-                        if i < n and j < n and not abs(Mv[i * dims + j] - Kd[i][j]) <= 1e-12 * max(1.0, abs(Kd[i][j])): badm = "entry (%d,%d) of the matrix the solver sees is %r, the kernel gives %r" % (i, j, Mv[i * dims + j], Kd[i][j])
+                        if i < n and j < n and not abs(Mv[i * dims + j] - Kd[i][j]) <= mtol(i, j): badm = "entry (%d,%d) of the matrix the solver sees is %r, the kernel gives %r" % (i, j, Mv[i * dims + j], Kd[i][j])
                 if badm: rep2(p, c, cid, "blockmatrix", badm)
         else:
             if fin != [float(v).hex() for v in r[6]]:
@@ -475,11 +747,32 @@ def main():
                       "(integer/dyadic coordinates, duplicates, unbalanced classes), linear/Gaussian kernels, C in 0.125..1000, eps in 1e-2..1e-5, each problem under "
                       "{shrinking on/off} x {precomputed, default cache, 2-row cache} x {cold, warm}, plus warm starts after the regularisation constants were lowered by a factor 4 (clipping + rebalancing of the old solution); "
                       "reused-trainer stage: a trainer that has converged once trains again with maxIterations = 2..4; its report (type, iterations, value, accuracy, result) must equal a fresh trainer's and pass every monitor whenever it claims accuracy; "
+                      "degenerate-geometry stream (op code D): C-SVM with/without bias, class-specific and per-example C, eps-SVR, one-class on near-duplicate pairs at distance 1e-3..1e-7 (same / opposite labels or targets), exact duplicates, "
+                      "collinear points (rank-deficient Gram matrix), feature scales 1e-4..1e4, generic (non-dyadic) coordinates, kernels linear / polynomial (degree 2, 3) / wide and narrow Gaussian, C in 0.125..1000, "
+                      "each problem under {shrinking on/off} x {precomputed, big cache, 2-row cache} x {float, double cache}; judged against the double kernel matrix with the derived entry-rounding allowance (coverage.degenerate_geometry_stream.formula), box exact; "
                       "every run: problem assembled by the extracted model == problem observed inside the trainer's QpSolver::solve call, and the extracted proved checker certify accepts the returned variables; non-trivial = at least 2 solver iterations")
     ck.cov["samples"] = [case_line(p, c, cid)[:300] for p, c, cid in items[:2]]
     ck.cov["traces_validated_against_impl"] = len(items)
     ck.cov["disagreements_checked"] = sum(keys.values())
     ck.notes["reused_trainer_runs"] = nreuse
+    dstat["formula"] = ("judged against the DOUBLE kernel matrix K computed by this script.  Solver's gradient vs lin - K alpha, per point i: gerr_i = sum_j T_ij |alpha_j|, "
+                        "T_ij = E_ij (+ 2^-24 (|K_ij| + E_ij) + 2^-150 with a float cache or a precomputed float matrix: every entry the solver reads is the library's double value rounded to float, "
+                        "relative error <= 2^-24); E_ij = entrywise bound of the two double evaluations (linear (2d+2) 2^-53 sum_k |x_ik x_jk|; polynomial 2 (deg |b|^(deg-1) db + 2^-52 |K_ij|), "
+                        "db = (d+2) 2^-53 (sum_k |x_ik x_jk| + |offset|); Gaussian 2 K_ij (gamma r^2 (d+3) 2^-53 + 2^-52); PRECOMPUTED Gaussian matrix (batch evaluation expands r^2 = |x|^2 + |y|^2 - 2<x,y>): in addition "
+                        "K_ij (exp(gamma dr2) - 1) + 2^-52 K_ij, dr2 = (d+4) 2^-53 (|x_i|^2 + |x_j|^2 + 2 sum_k |x_ik x_jk|)); drift = 256 2^-52 scale sqrt(iterations+1) as in the other streams. "
+                        "eps-KKT: max_up (g_a - gerr_a) - min_down (g_b + gerr_b) <= eps + 2 drift; bias interval and objective (1/2 sum |alpha_k| (gerr_k + drift)) with the same terms; "
+                        "box: exact, no allowance (returned coefficients and the solver's own variables); equality: min(64u(sum|alpha|+1) + 4u(iterations+4) max|alpha|, 1e-12 max(1, sum|alpha|, max|alpha|, box)), no kernel allowance; "
+                        "certify: eps + 2 (max_i gerr_i + drift), slack_eq as above; agreement: spread <= (eps + largest KKT allowance of the group) sum(U-L)")
+    dstat["max 2*tol/eps handed to certify (float cache)"] = allow_max.get("eps_allowance_2tol_degenerate_float_cache", 0.0)
+    dstat["max 2*tol/eps handed to certify (double cache)"] = allow_max.get("eps_allowance_2tol_degenerate_double_cache", 0.0)
+    ck.notes["degenerate_geometry_stream"] = dstat
+    if not ck.replay:
+        fams = ["csvm:bias1", "csvm:bias0", "csvmw:bias1", "csvmw:bias0", "epssvr", "oneclass"]
+        missing = [f_ for f_ in fams if not dstat["judged_by_family"].get(f_)]
+        ck.oblige("degenerate-geometry stream: every trainer family has results reported as accurate and judged (%d of %d runs judged, %d with a float cache)"
+                  % (dstat["judged"], dstat["runs"], dstat["judged_float"]), not missing, "no judged result for " + ", ".join(missing) if missing else "")
+    log("degenerate-geometry stream: %d runs, %d judged (%d float cache), max float allowance/eps %.3g, max KKT allowance/eps %.3g"
+        % (dstat["runs"], dstat["judged"], dstat["judged_float"], dstat["max_float_allowance/eps"], dstat["max_kkt_allowance/eps"]))
     ck.notes["objective_mismatch_at_iteration_limit(not a claim of the property; see harness/c07_findings.txt)"] = {"runs": len(objlim), "samples": objlim[:3]}
     ck.notes["accuracy_reached"] = nacc; ck.notes["monitor_failures_by_key"] = keys; ck.notes["runs_in_agreement_groups"] = nagree
     by = {}
